@@ -27,7 +27,7 @@ def write_file_traces(prog):
                     return ok(marker("PATH"))
                 return None
             st = Val("adt", [marker("FM"), variant(FT, ft), marker("DATA")], ("coroutine", "state"))
-            r = run(b, {1: st}, success_model(b, ov), max_steps=40000)
+            r = run(b, {1: st}, success_model(b, ov, skip_unknown_loops=True), max_steps=60000)
             ev = []
             for c, args, res in r.calls:
                 n = c.name or ""
